@@ -1,4 +1,5 @@
 import ScionVerif.Lemmas.Sched
+import ScionVerif.Generated.Sched
 /-!
 # C20 — waiting senders always wake; dropping the manager stops its workers
 
@@ -13,6 +14,90 @@ What is *not* proved here: that the Rust code performs exactly these atomic acti
 tokio / scc / std::sync themselves.
 -/
 namespace ScionVerif.Sched
+
+/-! ## 0. Tie to the source: the regions between the yield points of the code
+
+`Generated/Sched.lean` is written by the translator on every run: for every function of the protocol the
+sequence of shared-state effects in source order, cut at the `verif-hooks` yield points (the same points at
+which the harness `hx_sched` parks and releases the real tasks).  The statements below are what the model
+*assumes* about that code, proved over the generated names – they are ties (`decide` / unfolding), not
+properties: if an effect moves into another region, a region is split into two lock regions, the `Notified`
+is created after the unlock, or the worker is spawned outside the entry API, they stop checking. -/
+
+open Generated.Sched in
+/-- effect of one scanned token on the handshake state (`e` = the value stored by an `errSome`) -/
+def applyTok (e : Option Err) (sh : Shared) : Tok → Shared
+  | .ongoingSome => { sh with ongoing := true }
+  | .ongoingNone => { sh with ongoing := false }
+  | .initTrue => { sh with initialized := true }
+  | .notify => { sh with gen := sh.gen + 1 }
+  | .errNone => { sh with error := none }
+  | .errSome => { sh with error := e }
+  | .storeNone => { sh with active := none }
+  | _ => sh
+
+/-- the lock region after `w:before-set-ongoing` is the model action `setOngoing` -/
+theorem region_setOngoing (x : Worker) (al : Bool) (h : x.pc = .setOngoing) :
+    (wNext x al .setOngoing).map (·.sh) =
+      some (Generated.Sched.setOngoingRegion.foldl (applyTok none) x.sh) := by
+  simp [wNext, h, Generated.Sched.setOngoingRegion, applyTok]
+
+/-- the lock region after `w:before-set-err` (Ok arm / Err arm of `match result`) is the model action `setErr` -/
+theorem region_setErr (x : Worker) (al : Bool) (r : FetchRes) (h : x.pc = .setErr r) :
+    (wNext x al .setErr).map (·.sh) =
+      some ((if r = .ok then Generated.Sched.setErrOkRegion else Generated.Sched.setErrErrRegion).foldl
+        (applyTok (errOf r)) x.sh) := by
+  cases r <;> simp [wNext, h, Generated.Sched.setErrOkRegion, Generated.Sched.setErrErrRegion, applyTok, errOf]
+
+/-- the lock region after `w:before-clear` is the model action `clearAndNotify`: flags cleared and
+`notify_waiters()` in ONE region -/
+theorem region_clearAndNotify (x : Worker) (al : Bool) (h : x.pc = .clear) :
+    (wNext x al .clearAndNotify).map (·.sh) =
+      some (Generated.Sched.clearRegion.foldl (applyTok none) x.sh) := by
+  simp [wNext, h, Generated.Sched.clearRegion, applyTok]
+
+/-- the region after `w:before-exit-notify` (one lock region that also covers the lock-free `store(None)`) is
+the model's `exitNotify` followed by `storeNone` -/
+theorem region_exit (x : Worker) (al : Bool) (r : Reason) (h : x.pc = .exitNotify r) :
+    ((wNext x al .exitNotify).bind (fun y => wNext y al .storeNone)).map (·.sh) =
+      some (Generated.Sched.exitNotifyRegion.foldl (applyTok (some (.exited r))) x.sh) := by
+  simp [wNext, h, Generated.Sched.exitNotifyRegion, applyTok]
+
+/-- **the `Notified` is created under the state lock**, after the two flag reads and before the yield point
+`h:registered`; what follows that yield point is only the await -/
+theorem register_under_lock :
+    Generated.Sched.lockCheckRegion = [.lock, .readOngoing, .readInit, .register] ∧
+    Generated.Sched.registeredRegion = [.awaitNotified] := by decide
+
+/-- no region between two yield points takes the state lock twice (a region of the code is at most one lock
+region of the model), and no shared-state effect precedes the first yield point of a function -/
+theorem one_lock_per_region :
+    (∀ r ∈ Generated.Sched.allRegions, (r.filter (· = .lock)).length ≤ 1) ∧
+    Generated.Sched.beforeFirstSite = [] := by decide
+
+/-- the worker is spawned inside the entry API; removal and cancellation are single calls; `select!` is biased
+with the cancellation first -/
+theorem entry_api_shape :
+    Generated.Sched.ensureFn = [.entrySync, .insertEntry, .spawn] ∧
+    Generated.Sched.fastEnsureFn = [.containsKey, .ensure] ∧
+    Generated.Sched.stopFn = [.removeSync] ∧ Generated.Sched.taskDrop = [.cancel] ∧
+    Generated.Sched.manageLoop.filter (fun t => t = .biased ∨ t = .armCancelled ∨ t = .armSleep ∨ t = .armIssue)
+      = [.biased, .armCancelled, .armSleep, .armIssue] := by decide
+
+/-- the remaining (lock-free) regions are the calls the model's actions stand for -/
+theorem lockfree_regions_shape :
+    Generated.Sched.startRegion = [.upgrade, .fetchAndUpdate] ∧
+    Generated.Sched.cacheOkRegion = [.cache] ∧ Generated.Sched.cacheErrRegion = [.cache] ∧
+    Generated.Sched.publishRegion = [.publish] ∧ Generated.Sched.afterClearRegion = [] ∧
+    Generated.Sched.cancelledRegion = [] ∧ Generated.Sched.tickRegion = [.upgrade, .maintain] ∧
+    Generated.Sched.maintain = [.idleCheck, .fetchAndUpdate] ∧ Generated.Sched.idleCheck = [.readUsed, .usedFalse] ∧
+    Generated.Sched.issueRegion = [.upgrade, .handleIssue] ∧ Generated.Sched.exitRemoveRegion = [.upgrade, .remove] ∧
+    Generated.Sched.tryActivePath = [.usedTrue, .load] ∧
+    Generated.Sched.loadRegion = [.usedTrue, .load, .awaitOngoing] ∧ Generated.Sched.reloadRegion = [.load] ∧
+    Generated.Sched.peekRegion = [.peekWith, .tryActive, .expiryCheck] ∧
+    Generated.Sched.ensureRegion = [.ensure, .activePath, .expiryCheck] ∧
+    Generated.Sched.readErrRegion = [.readErr] ∧ Generated.Sched.currentError = [.lock, .readErrField] ∧
+    Generated.Sched.cachedPath = [.peekWith, .tryActive, .expiryCheck, .fastEnsure] := by decide
 
 /-! ## 1. No lost wake-up -/
 
@@ -78,6 +163,153 @@ theorem released_with_path_or_error {s : State} (hr : Reachable s) (j : Nat) (hd
     ((s.t j).kind ≠ .cached ∧ ∃ e, (s.t j).res = some (.err e)) :=
   hr.inv.shape j hd
 
+/-! ### composition: a registered caller returns once the lookup finishes
+
+`waiter_released` (worker fairness ⇒ the `Notified` is complete) and `waiter_finishes` (caller fairness ⇒ done)
+compose: after the worker's `notifyRank` steps the caller is *permanently enabled* until it is done
+(`released_caller_stays_enabled` – so giving it steps is purely a matter of scheduling it), and three of its
+own steps later it has returned with a path or an error (`waiting_caller_returns`). -/
+
+theorem run_append (s : State) (a b : List Action) : run s (a ++ b) = run (run s a) b := by
+  simp [run, List.foldl_append]
+
+theorem reachable_run {s : State} (hr : Reachable s) (acts : List Action) : Reachable (run s acts) := by
+  obtain ⟨a0, rfl⟩ := hr
+  exact ⟨a0 ++ acts, (run_append _ _ _).symm⟩
+
+theorem nT_mono_run (acts : List Action) {s : State} {j : Nat} (hj : j < s.nT) : j < (run s acts).nT := by
+  induction acts generalizing s with
+  | nil => exact hj
+  | cons a as ih =>
+    simp only [run, List.foldl_cons]
+    refine ih ?_
+    unfold step
+    cases hs : step? s a with
+    | none => simpa using hj
+    | some s' => simpa using Nat.lt_of_lt_of_le hj (step?_frameT hs j).2
+
+theorem nW_mono_run (acts : List Action) {s : State} {i : Nat} (hi : i < s.nW) : i < (run s acts).nW := by
+  induction acts generalizing s with
+  | nil => exact hi
+  | cons a as ih =>
+    simp only [run, List.foldl_cons]
+    exact ih (gen_mono_step s a hi).2
+
+theorem kind_step (s : State) (a : Action) {j : Nat} (hj : j < s.nT) :
+    ((step s a).t j).kind = (s.t j).kind ∧ j < (step s a).nT := by
+  unfold step
+  cases hs : step? s a with
+  | none => simp [hj]
+  | some s' =>
+    simp only [Option.getD_some]
+    refine ⟨?_, Nat.lt_of_lt_of_le hj (step?_frameT hs j).2⟩
+    rcases (step?_frameT hs j).1 with e | ⟨b, _, ht⟩ | ⟨e, _⟩
+    · rw [e]
+    · exact ht.kind
+    · omega
+
+theorem kind_run (acts : List Action) {s : State} {j : Nat} (hj : j < s.nT) :
+    ((run s acts).t j).kind = (s.t j).kind := by
+  induction acts generalizing s with
+  | nil => rfl
+  | cons a as ih =>
+    simp only [run, List.foldl_cons]
+    obtain ⟨h1, h2⟩ := kind_step s a hj
+    exact (ih h2).trans h1
+
+/-- along any schedule a caller is either untouched or strictly further in its program -/
+theorem caller_same_or_further (acts : List Action) {s : State} {j : Nat} (hj : j < s.nT) :
+    (run s acts).t j = s.t j ∨ ((run s acts).t j).pc.rank < (s.t j).pc.rank := by
+  induction acts generalizing s with
+  | nil => exact Or.inl rfl
+  | cons a as ih =>
+    simp only [run, List.foldl_cons]
+    cases hs : step? s a with
+    | none =>
+      have hst : step s a = s := by simp [step, hs]
+      rw [hst]; exact ih hj
+    | some s' =>
+      have hst : step s a = s' := by simp [step, hs]
+      rw [hst]
+      have hj' : j < s'.nT := Nat.lt_of_lt_of_le hj (step?_frameT hs j).2
+      by_cases hself : ∃ b, a = .t j b
+      · obtain ⟨b, rfl⟩ := hself
+        have hrank := step?_selfT hs
+        rcases ih hj' with h | h
+        · right; rw [show (List.foldl step s' as) = run s' as from rfl, h]; exact hrank
+        · right; exact Nat.lt_trans h hrank
+      · have hsame := step?_notselfT hs hj (fun b e => hself ⟨b, e⟩)
+        rcases ih hj' with h | h
+        · left; rw [show (List.foldl step s' as) = run s' as from rfl, h, hsame]
+        · right; rw [← hsame]; exact h
+
+/-- **Once released, always enabled.**  Caller `j` waits on worker `i`; after any schedule `acts1` in which the
+worker got its `notifyRank` effective steps and any continuation `acts2`, caller `j` – unless it has returned –
+has an enabled step: nothing can block it any more. -/
+theorem released_caller_stays_enabled {s : State} (hr : Reachable s) (j g i : Nat)
+    (hw : (s.t j).pc = .waiting g) (hh : (s.t j).h = some i) (acts1 acts2 : List Action)
+    (hfairW : (s.w i).pc.notifyRank ≤ effW i s acts1)
+    (hnd : ((run (run s acts1) acts2).t j).pc ≠ .done) :
+    ∃ b, (step? (run (run s acts1) acts2) (.t j b)).isSome = true := by
+  have hinv := hr.inv
+  have hjlt : j < s.nT := by
+    refine Nat.lt_of_not_le (fun hge => ?_)
+    have := hinv.tailT j hge
+    simp [hw] at this
+  have hilt : i < s.nW := hinv.hlt j i hh
+  have hrel := waiter_released hr j g i hw hh acts1 hfairW
+  have hr2 : Reachable (run (run s acts1) acts2) := reachable_run (reachable_run hr acts1) acts2
+  have hi1 : i < (run s acts1).nW := nW_mono_run acts1 hilt
+  have hmono := gen_mono_run acts2 hi1
+  refine caller_enabled hr2.inv (nT_mono_run acts2 (nT_mono_run acts1 hjlt)) hnd ?_
+  intro g' i' hpc' hh'
+  -- the caller is still where it was in `s` (it cannot come back to `waiting`)
+  have h12 : run (run s acts1) acts2 = run s (acts1 ++ acts2) := (run_append _ _ _).symm
+  rw [h12] at hpc' hh' hmono ⊢
+  rcases caller_same_or_further (acts1 ++ acts2) hjlt with hsame | hlow
+  · rw [hsame] at hpc' hh'
+    rw [hw] at hpc'; injection hpc' with hg; subst hg
+    rw [hh] at hh'; injection hh' with hi'; subst hi'
+    rw [← h12] at hmono ⊢
+    omega
+  · rw [hpc', hw] at hlow
+    simp [TPc.rank] at hlow
+
+/-- **A registered caller returns once the lookup finishes.**  Caller `j` waits on worker `i`.  Along every
+schedule `acts1 ++ acts2` such that worker `i` gets its `notifyRank ≤ 7` effective steps in `acts1` (the lookup
+finishes, the worker is scheduled) and caller `j` gets 3 steps in `acts2` (it is enabled throughout, see
+`released_caller_stays_enabled`): the call has returned, with a path or with an error. -/
+theorem waiting_caller_returns {s : State} (hr : Reachable s) (j g i : Nat)
+    (hw : (s.t j).pc = .waiting g) (_hh : (s.t j).h = some i) (acts1 acts2 : List Action)
+    (_hfairW : (s.w i).pc.notifyRank ≤ effW i s acts1)
+    (hfairT : 3 ≤ effT j (run s acts1) acts2) :
+    ((run s (acts1 ++ acts2)).t j).pc = .done ∧
+    ((∃ p, ((run s (acts1 ++ acts2)).t j).res = some (.path p)) ∨
+     (∃ e, ((run s (acts1 ++ acts2)).t j).res = some (.err e))) := by
+  have hinv := hr.inv
+  have hjlt : j < s.nT := by
+    refine Nat.lt_of_not_le (fun hge => ?_)
+    have := hinv.tailT j hge
+    simp [hw] at this
+  have hj1 := nT_mono_run acts1 hjlt
+  have hrank : ((run s acts1).t j).pc.rank ≤ 3 := by
+    rcases caller_same_or_further acts1 hjlt with h | h
+    · rw [h, hw]; simp [TPc.rank]
+    · rw [hw] at h
+      have h3 : (TPc.waiting g).rank = 3 := rfl
+      omega
+  have hdone := caller_progress acts2 hj1 (Nat.le_trans hrank hfairT)
+  rw [← run_append] at hdone
+  refine ⟨hdone, ?_⟩
+  have hkind : ((run s (acts1 ++ acts2)).t j).kind ≠ .cached := by
+    have hk0 : (s.t j).kind ≠ .cached := (hinv.needs j (by simp [hw, TPc.needsH])).2
+    have := kind_run (acts1 ++ acts2) hjlt
+    rw [this]; exact hk0
+  rcases released_with_path_or_error (reachable_run hr _) j hdone with h | h | h
+  · exact Or.inl h
+  · exact absurd h.1 hkind
+  · exact Or.inr h.2
+
 /-! ## 3. One worker per pair -/
 
 /-- **Single worker per pair.**  In every reachable state: (a) the number of `insert_entry` for a key
@@ -95,6 +327,52 @@ theorem first_requests_one_worker {s : State} (hr : Reachable s) (k : Key) (h0 :
     s.spawned k ≤ 1 := by
   have := hr.inv.mp.count k
   split at this <;> omega
+
+/-- **… and at least one.**  The `ensure_managed_paths` step of a `path()` caller leaves its pair managed: the
+handle it holds is the registered worker's, and a worker has been spawned for the pair
+(`spawned = removed + 1`; with `first_requests_one_worker`: exactly one while the pair was never removed). -/
+theorem first_request_starts_worker {s s' : State} (hr : Reachable s) {j : Nat} (hj : j < s.nT)
+    (hpc : (s.t j).pc = .ensure) (hk : (s.t j).kind = .path)
+    (h : step? s (.t j .ensure) = some s') :
+    ∃ i, s'.map (s.t j).key = some i ∧ (s'.t j).h = some i ∧
+      s'.spawned (s.t j).key = s'.removed (s.t j).key + 1 := by
+  have hr' : Reachable s' := by
+    have h1 : run s [.t j .ensure] = s' := by simp [run, step, h]
+    rw [← h1]; exact reachable_run hr _
+  have hs1 : ∀ s1 : State, s1.alive = true → s1.settle = s1 := by
+    intro s1 h; simp [State.settle, h]
+  have hcount := (single_worker_per_pair hr').1 (s.t j).key
+  have key : ∃ i, s'.map (s.t j).key = some i ∧ (s'.t j).h = some i := by
+    simp only [step?, stepRaw, stepT, hj, if_true, hpc, Option.map_eq_some_iff] at h
+    have hae : ∀ i, afterEnsure (s.t j) i = { s.t j with h := some i, pc := .loadActive } := by
+      intro i; simp [afterEnsure, hk]
+    have halive : ∀ s1 : State, j < s1.nT → (s1.t j).kind = .path → (s1.t j).pc = .loadActive →
+        s1.alive = true := by
+      intro s1 h1 h2 h3
+      simp only [State.alive, Bool.or_eq_true, List.any_eq_true, List.mem_range]
+      exact Or.inr ⟨j, h1, by simp [Waiter.holds, h2, h3]⟩
+    cases hm : s.map (s.t j).key with
+    | some i =>
+      simp only [hm] at h
+      obtain ⟨s1, h1, rfl⟩ := h
+      injection h1 with h1; subst h1
+      have hal := halive (s.setT j (afterEnsure (s.t j) i)) (by simpa [State.setT] using hj)
+        (by simp [State.setT, hae, hk]) (by simp [State.setT, hae])
+      rw [hs1 _ hal]
+      refine ⟨i, ?_, ?_⟩ <;> simp [State.setT, hae, hm]
+    | none =>
+      simp only [hm] at h
+      obtain ⟨s1, h1, rfl⟩ := h
+      injection h1 with h1; subst h1
+      have hal := halive ((s.insert (s.t j).key).setT j (afterEnsure (s.t j) s.nW))
+        (by simpa [State.setT, State.insert] using hj)
+        (by simp [State.setT, hae, hk]) (by simp [State.setT, hae])
+      rw [hs1 _ hal]
+      refine ⟨s.nW, ?_, ?_⟩ <;> simp [State.setT, State.insert, hae]
+  obtain ⟨i, h1, h2⟩ := key
+  refine ⟨i, h1, h2, ?_⟩
+  rw [h1] at hcount
+  simpa using hcount
 
 /-
 The stronger statement "two distinct workers of the same pair are never both live (un-cancelled)" is FALSE
@@ -271,6 +549,21 @@ def demo2 : List Action :=
 
 example : ((run State.init demo2).t 0).res = some (.err .fetchFailed) ∧
     ((run State.init demo2).t 1).res = some (.err .fetchFailed) := by decide +kernel
+
+/-- premises of `waiting_caller_returns` / `released_caller_stays_enabled` are satisfiable: in `demo` caller 0 waits
+(counter 0) on worker 0, which is fetching (`notifyRank = 5`); five worker steps, then three caller steps -/
+def demoW : List Action :=
+  [.w 0 (.fetchDone .err), .w 0 (.cacheStore .keep), .w 0 .setErr, .w 0 (.publishActive .keep), .w 0 .clearAndNotify]
+def demoT : List Action := [.t 0 .awake, .t 0 (.reload false), .t 0 .readErr]
+
+example : ((run State.init demo).t 0).pc = .waiting 0 ∧ ((run State.init demo).t 0).h = some 0 ∧
+    ((run State.init demo).w 0).pc.notifyRank ≤ effW 0 (run State.init demo) demoW ∧
+    3 ≤ effT 0 (run (run State.init demo) demoW) demoT := by decide +kernel
+
+/-- premises of `first_request_starts_worker`: a first `path()` request about to call `ensure_managed_paths` -/
+example : let s := run State.init [.m (.spawnPath 5), .t 0 (.peek false)]
+    0 < s.nT ∧ (s.t 0).pc = .ensure ∧ (s.t 0).kind = .path ∧ (step? s (.t 0 .ensure)).isSome = true := by
+  decide +kernel
 
 /-- the user drops the manager while the worker still holds its upgraded reference; when the worker releases
 it the manager value is gone (hypothesis of `drop_stops_workers`) with the worker in its `select!` loop -/
